@@ -589,6 +589,10 @@ def tuple_dom(doms):
 _tuple_model = tuple_model
 
 
+def _first_lt_second(t):       # module level: picklable
+    return t[0] < t[1]
+
+
 def tuple_cfgs():
     int_m, str_m = CONFIGS["Int"].model, CONFIGS["Str"].model
     flt_m = CONFIGS["Float"].model
@@ -615,7 +619,7 @@ def tuple_cfgs():
             tuple_dom([none_or_int_d, str_d]),
             tuple_model([none_or_int_m, str_m]), "t(None,a)", kind=nm)
     cfg("ValidatedTuple(Int,Int,a<b)",
-        lambda: ValidatedTuple(Int, Int, fvalidate=lambda t: t[0] < t[1]),
+        lambda: ValidatedTuple(Int, Int, fvalidate=_first_lt_second),
         lambda s: tuple_dom([int_d, int_d])(s) and s[0] < s[1],
         None, "t(1,2)", kind="ValidatedTuple")
 
